@@ -5,74 +5,10 @@
 package main
 
 import (
-	"os"
 	"time"
 
 	"verif/lib/concfs"
-	"verif/lib/fsx"
 )
-
-func handlePrograms(fs string) []concfs.Prog {
-	var out []concfs.Prog
-
-	// steps on a file handle / directory handle
-	fileSteps := []fsx.Call{
-		{Op: "H.Read", N: 2}, {Op: "H.ReadAt", N: 2, M: 0}, {Op: "H.Write", Data: "W"}, {Op: "H.WriteAt", Data: "V", N: 0},
-		{Op: "H.Seek", N: 0, M: 0}, {Op: "H.Truncate", N: 1}, {Op: "H.Stat"}, {Op: "H.Sync"}, {Op: "H.Name"}, {Op: "H.Close"},
-	}
-	dirSteps := []fsx.Call{
-		{Op: "H.ReadDir", N: 1}, {Op: "H.Readdirnames", N: 1}, {Op: "H.ReadDir", N: -1}, {Op: "H.Readdirnames", N: -1},
-		{Op: "H.Readdirnames", N: 0}, {Op: "H.Stat"}, {Op: "H.Close"},
-	}
-
-	sh := func(c fsx.Call) fsx.Call { c.Op = "S" + c.Op; return c }
-
-	openF := fsx.Call{Op: "H.Open", A: "/d/x", Flag: os.O_RDWR}
-	openD := fsx.Call{Op: "H.Open", A: "/d", Flag: os.O_RDONLY}
-
-	for i := range fileSteps {
-		for j := i; j < len(fileSteps); j++ {
-			// one shared handle
-			out = append(out, concfs.Prog{FS: fs, SharedOpen: &openF, Threads: [][]fsx.Call{{sh(fileSteps[i])}, {sh(fileSteps[j])}}})
-			// two distinct handles on the same file
-			out = append(out, concfs.Prog{FS: fs, Threads: [][]fsx.Call{{openF, fileSteps[i], {Op: "H.Close"}}, {openF, fileSteps[j], {Op: "H.Close"}}}})
-		}
-	}
-
-	for i := range dirSteps {
-		for j := i; j < len(dirSteps); j++ {
-			out = append(out, concfs.Prog{FS: fs, SharedOpen: &openD, Threads: [][]fsx.Call{{sh(dirSteps[i])}, {sh(dirSteps[j])}}})
-			out = append(out, concfs.Prog{FS: fs, Threads: [][]fsx.Call{{openD, dirSteps[i], {Op: "H.Close"}}, {openD, dirSteps[j], {Op: "H.Close"}}}})
-		}
-	}
-
-	// path call against handle call on the same node
-	paths := []fsx.Call{
-		{Op: "Truncate", A: "/d/x", N: 0}, {Op: "Chmod", A: "/d/x", Perm: 0o600}, {Op: "Remove", A: "/d/x"},
-		{Op: "Rename", A: "/d/x", B: "/d/y"}, {Op: "Stat", A: "/d/x"}, {Op: "Link", A: "/d/x", B: "/d/y"}, {Op: "Chtimes", A: "/d/x", N: 3},
-	}
-
-	for _, pc := range paths {
-		for _, hs := range fileSteps {
-			out = append(out, concfs.Prog{FS: fs, SharedOpen: &openF, Threads: [][]fsx.Call{{pc}, {sh(hs)}}})
-		}
-	}
-
-	// directory handle call against a path call that changes that directory
-	dirMut := []fsx.Call{
-		{Op: "Mkdir", A: "/d/y", Perm: 0o755}, {Op: "Remove", A: "/d/x"}, {Op: "Rename", A: "/d/x", B: "/d/y"},
-		{Op: "OpenFile", A: "/d/y", Flag: os.O_RDWR | os.O_CREATE | os.O_EXCL, Perm: 0o644}, {Op: "Chmod", A: "/d/x", Perm: 0o600},
-	}
-
-	for _, pc := range dirMut {
-		for _, hs := range dirSteps {
-			out = append(out, concfs.Prog{FS: fs, SharedOpen: &openD, Threads: [][]fsx.Call{{pc}, {sh(hs)}}})
-			out = append(out, concfs.Prog{FS: fs, Threads: [][]fsx.Call{{pc}, {openD, hs, {Op: "H.Close"}}}})
-		}
-	}
-
-	return out
-}
 
 func main() {
 	concfs.Main("C08", "model_checking", func(tier string) concfs.Plan {
@@ -80,7 +16,7 @@ func main() {
 
 		for _, fs := range []string{"MemFS", "OrefaFS"} {
 			pl.Programs = append(pl.Programs, concfs.Pairs(fs, false, concfs.Templates(fs, false, true))...)
-			pl.Programs = append(pl.Programs, handlePrograms(fs)...)
+			pl.Programs = append(pl.Programs, concfs.HandlePrograms(fs)...)
 		}
 
 		// MemFS views with different non-admin users, plus per-view setters
